@@ -35,7 +35,11 @@ RULE = (
     "0..4 s later abort or remove; abort then remove: nothing may happen in between, activity is judged from the first "
     "return, frozen fields from the last), and configuration changes of the user that run the shares-changed "
     "management cycle (friend added, another user blocked, rescan, shared-directory update) are generated inside the "
-    "observation window after the call(s) + 200 s of virtual time afterwards. "
+    "observation window after the call(s); a scripted uploader may offer a file by itself (PeerTransferRequest over "
+    "a connection it opens, as a peer that still has it queued from an earlier session) while the client's own "
+    "remote-queue attempt still hangs in a slow / hanging / late-refusing connect, so that both negotiation tasks of "
+    "the download exist at the call, and may offer it once more 1 ms..6 s after the call returned (must be refused) "
+    "+ 200 s of virtual time afterwards. "
     "Oracle, per stopped transfer, after the call returned at T: (1) no PeerTransferQueue / PeerTransferRequest / "
     "PeerPlaceInQueueRequest / PeerUploadFailed naming the file, no PeerTransferReply(allowed) and no file-connection "
     "ticket of that transfer arrives at a scripted endpoint later than T + link latency (refusals answering a request "
@@ -58,7 +62,8 @@ ASSUMPTIONS = [
     "in-memory TCP: ordered, lossless, 1 ms one-way latency; a frame written before the call returned arrives no later "
     "than T + 1 ms, so only later arrivals are counted (frames written after T within the same virtual instant are "
     "not distinguishable and are tolerated)",
-    "scripted peers never re-queue or re-offer a file after the user call returned (they are muted at T); refusals "
+    "scripted peers never re-queue a file after the user call returned and re-offer it at most once (late offer, "
+    "which the client has to refuse; otherwise they are muted at T); refusals "
     "(PeerTransferReply allowed=False, PeerTransferQueueFailed) answering a request the peer sent earlier are legitimate",
     "a scripted uploader keeps one upload per file: a repeated PeerTransferQueue for a file it already offers is ignored",
     "a remote-queue task and a download-initialisation task of the same transfer may coexist (the peer may offer a "
@@ -122,6 +127,10 @@ def _peer(draw, role, slow_bias):
         p['fault_k'] = draw(st.sampled_from([0, 1, 500]) | st.integers(0, 40000))
         p['fault_n'] = draw(st.sampled_from([1, 1, 2]))
         p['drop_link'] = draw(st.booleans())
+        # the peer still has the file queued from an earlier session: it offers it by itself (PeerTransferRequest over
+        # a connection it opens) offer_ms after the download was added / late_offer_ms after the user call returned
+        p['offer_ms'] = draw(st.sampled_from([None] * 5 + [100, 1500]))
+        p['late_offer_ms'] = draw(st.sampled_from([None] * 5 + [1, 2000]))
     else:
         p['drop_link'] = draw(st.integers(0, 3)) > 0
         p['silent'] = draw(st.integers(0, 5)) == 0
@@ -318,6 +327,53 @@ def offline_case(draw):
 
 
 @st.composite
+def both_case(draw):
+    """Both negotiations of a download in flight: the client's remote-queue attempt hangs in a slow connection attempt
+    (slow / hanging / late refusing direct connect, slow indirect path) while the peer connects in and offers the file,
+    so that the download is INITIALIZING (or DOWNLOADING) as well; the call lands while both tasks exist and the
+    horizon lets the hanging attempt resolve either way. Optionally the peer offers the file again after the call."""
+    p = draw(_peer('U', slow_bias=True))
+    reach = draw(st.sampled_from(['accept-late', 'accept-late', 'refuse-late', 'hang', 'timeout']))
+    if reach == 'accept-late':
+        p.update({'direct': 'accept', 'direct_ms': draw(st.sampled_from([5000, 7000, 9900]))})
+    elif reach == 'refuse-late':
+        p.update({'direct': 'refuse', 'direct_ms': draw(st.sampled_from([5000, 9000]))})
+    elif reach == 'hang':
+        p.update({'direct': 'hang', 'direct_ms': 2})
+    else:
+        p.update({'direct': 'accept', 'direct_ms': 12000})
+    p.update({'indirect': draw(st.sampled_from(['silent', 'cannot', 'pierce'])),
+              'indirect_ms': draw(st.sampled_from([3000, 8000, 20000])),
+              'offer_ms': draw(st.sampled_from([60, 100, 1000, 3000])), 'auto_start': draw(st.booleans()),
+              'start_ms': draw(st.sampled_from([5, 500])), 'fileconn_ms': draw(st.sampled_from([5, 3000, 9000, 70000])),
+              'fault': draw(st.sampled_from([None, 'stall', 'stall'])), 'fault_k': draw(st.integers(0, 3000)),
+              'drop_link': False, 'late_offer_ms': draw(st.sampled_from([None, None, 1, 500, 3000]))})
+    n = draw(st.sampled_from([1, 1, 2]))
+    p['xfers'] = [{'at': draw(st.sampled_from([0, 0, 40])), 'size': draw(st.integers(3001, 30000))} for _ in range(n)]
+    xi = draw(st.integers(0, n - 1))
+    s = p['xfers'][xi]['at']
+    lo = s + p['offer_ms'] + 3
+    hi = max(lo, min(s + 50 + min(p['direct_ms'], 10000) - 20, lo + min(p['fileconn_ms'], 3500) + 500))
+    at = draw(st.integers(lo, hi))
+    peers = [p]
+    if draw(st.integers(0, 3)) == 0:
+        peers.append(draw(_peer(draw(st.sampled_from(['U', 'D'])), slow_bias=draw(st.booleans()))))
+    op = draw(st.sampled_from(OPS))
+    then = None
+    if op == 'pause':
+        then = draw(st.sampled_from([None, None, 'abort', 'remove']))
+    ops = [{'peer': 0, 'xfer': xi, 'op': op, 'at': at, 'steps': draw(st.sampled_from([0, 0, 1, 3])), 'then': then,
+            'gap': draw(st.sampled_from([0, 60, 2000])) if then else 0, 'steps2': 0}]
+    trig = []
+    for _ in range(draw(st.integers(0, 2))):
+        trig.append({'at': draw(st.integers(0, at + 8000)), 'kind': draw(st.sampled_from(['status', 'adduser', 'add'])),
+                     'user': draw(st.integers(0, len(peers))), 'status': draw(st.sampled_from([2, 2, 1])), 'pad': 0})
+    return {'mode': draw(st.sampled_from(['fallback', 'race'])), 'up_kbps': 0,
+            'down_kbps': draw(st.sampled_from([0, 0, 2])), 'exec_ms': draw(st.sampled_from([0, 0, 1, 3])),
+            'peers': peers, 'triggers': trig, 'ops': ops}
+
+
+@st.composite
 def sequence_case(draw):
     """Call sequences on one transfer (pause awaited, later abort / remove; abort then remove) from QUEUED, INITIALIZING
     and mid-file, followed inside the observation window by configuration changes of the user that make the transfer
@@ -355,7 +411,7 @@ def sequence_case(draw):
         p.update({'direct': 'accept', 'direct_ms': draw(st.sampled_from([2, 3000, 6000])), 'auto_start': True,
                   'start_ms': draw(st.sampled_from([5, 500])), 'fileconn_ms': draw(st.sampled_from([5, 3000, 9000])),
                   'fault': draw(st.sampled_from([None, 'stall'])), 'fault_k': draw(st.integers(1, 3000)),
-                  'drop_link': False})
+                  'drop_link': False, 'late_offer_ms': draw(st.sampled_from([None, 1, 1000, 6000]))})
         lo, hi = 60, p['direct_ms'] + p['start_ms'] + p['fileconn_ms'] + 500
         xi = draw(st.integers(0, n - 1))
     peers = [p]
@@ -428,6 +484,8 @@ def _sanitise(case):
             q['fault_k'] = _int(p.get('fault_k'), 0, 60000, 0)
             q['fault_n'] = _int(p.get('fault_n'), 1, 2, 1)
             q['drop_link'] = bool(p.get('drop_link', False))
+            q['offer_ms'] = None if p.get('offer_ms') is None else _int(p.get('offer_ms'), 1, 60000, 100)
+            q['late_offer_ms'] = None if p.get('late_offer_ms') is None else _int(p.get('late_offer_ms'), 1, 60000, 1)
         else:
             q['drop_link'] = bool(p.get('drop_link', False))
             q['silent'] = bool(p.get('silent', False))
@@ -600,6 +658,7 @@ def _run(c, res, tmp):
                 files = {x['rpath']: xfer.content(pi * 7 + xi, x['size']) for xi, x in enumerate(p['xfers'])}
                 up = xfer.ScriptedUploader(world, names[pi], files, **kw)
                 up.auto_start = False
+                up.ticket_counter = 1000 * (pi + 1)    # tickets of different peers do not collide
                 up.file_conn_delay = p['fileconn_ms'] / 1000.0
 
                 def plan(att, up=up, p=p):
@@ -638,6 +697,16 @@ def _run(c, res, tmp):
                         loop.call_later(p['start_ms'] / 1000.0, start, path)
                     return True
                 up.on_queue = on_queue
+
+                def offer(path, late=False, up=up):
+                    # unsolicited offer; a late one (after the user call) is sent although the file is muted: the
+                    # client has to refuse it, which is a legitimate reply
+                    if not late and ((up.name, path) in muted or path in up.scheduled or any(
+                            a.path == path and not a.done and not (a.reply is not None and not a.reply.allowed)
+                            and not (a.file_link is not None and a.file_link.ep.dead) for a in up.attempts)):
+                        return
+                    up.start_upload(path)
+                up.offer = offer
                 scripts.append(up)
             else:
                 down = xfer.ScriptedDownloader(world, names[pi], **kw)
@@ -764,6 +833,9 @@ def _run(c, res, tmp):
                                                  if e['transfer'] is t and not e['task'].done()})
             rec['in_manager_at_return'] = any(x is t for x in tm.transfers)
             muted.add((t.username, t.remote_path))
+            pp = peers[o['peer']]
+            if pp['role'] == 'U' and pp['late_offer_ms'] is not None:
+                loop.call_later(pp['late_offer_ms'] / 1000.0, scripts[o['peer']].offer, t.remote_path, True)
             if o['then'] and o['op'] != 'remove':
                 # call sequence on the same transfer (pause, later abort / remove): nothing may happen in between and
                 # the frozen-field oracle applies from the return of the last call
@@ -818,6 +890,8 @@ def _run(c, res, tmp):
                 if p['role'] == 'U':
                     if (names[pi], x['rpath']) not in muted:
                         await tm.download(names[pi], x['rpath'])
+                        if p['offer_ms'] is not None:
+                            loop.call_later(p['offer_ms'] / 1000.0, scripts[pi].offer, x['rpath'])
                 else:
                     down = scripts[pi]
                     link = down.queue(x['rpath'])
@@ -1000,6 +1074,11 @@ def _judge(c, out, res, names, loop_errors):
             root = f'C06/lost-task-handle:{rec["orphans"][0]}>'
         elif rec['started_during_call']:
             root = f'C06/negotiation-started-during-call:{rec["started_during_call"][0]}>'
+        elif o['op'] == 'remove' and pre['state'] in ('COMPLETE', 'FAILED', 'ABORTED') and rec['pending_at_return']:
+            # remove() of a transfer that cannot be aborted any more left its negotiation task running
+            root = f'C06/remove-of-finished-transfer-keeps-task:{rec["pending_at_return"][0]}>'
+            res.violate(root[:-1], f'remove() of a {pre["state"]} transfer returned at {rel(T)} while '
+                                   f'{rec["pending_at_return"]} of {user} {path} is still pending; mode={c["mode"]}')
         else:
             root = 'C06/'
         ctx = (f'{o["op"]} of {rec["direction"]} {user} {path} called at {rel(rec["t_call"])} (state {pre["state"]}, '
@@ -1122,14 +1201,15 @@ def _judge(c, out, res, names, loop_errors):
 
 
 def run_shard(ctx):
-    n = 120 if ctx.tier == 'quick' else 3000
+    n = 100 if ctx.tier == 'quick' else 2700
     ctx.explore(case_strategy(), n, salt=0)
     ctx.explore(case_strategy(focus='U'), n // 3, salt=1)
     ctx.explore(case_strategy(focus='D'), n // 3, salt=2)
     ctx.explore(case_strategy(focus='mid'), n // 3, salt=3)
-    ctx.explore(case_strategy(focus='reoffer'), n // 2, salt=4)
+    ctx.explore(case_strategy(focus='reoffer'), n // 3, salt=4)
     ctx.explore(offline_case(), n // 3, salt=5)
-    ctx.explore(sequence_case(), n // 3, salt=6)
+    ctx.explore(sequence_case(), n // 3 + n // 10, salt=6)
+    ctx.explore(both_case(), n // 3, salt=7)
 
 
 MANIFEST_ENTRY = {
@@ -1186,6 +1266,10 @@ KNOWN_REPLAYS = {
                _u(direct='hang', xfers=[{'at': 0, 'size': 1000}, {'at': 500, 'size': 1000}])],
         ops=[{'peer': 0, 'xfer': 1, 'op': 'abort', 'at': 2000, 'steps': 0},
              {'peer': 1, 'xfer': 1, 'op': 'abort', 'at': 2000, 'steps': 0}]),
+    # the peer offers the file by itself while the client's own remote-queue attempt still hangs in a 6 s connect; the
+    # 1 kB download completes, remove() cannot abort a COMPLETE transfer and leaves the remote-queue task running
+    'C06/remove-of-finished-transfer-keeps-task:queue-remotely': _case(
+        peers=[_u(offer_ms=100, late_offer_ms=None)], ops=[{'peer': 0, 'xfer': 0, 'op': 'remove', 'at': 1000, 'steps': 0}]),
     # abort of an INCOMPLETE download removes the file (3 ms per file-system call); the peer's new offer arrives
     # meanwhile and is accepted
     'C06/negotiation-started-during-call:initialize-download': _case(
